@@ -266,6 +266,7 @@ pub(crate) struct KEnv {
     pub fail_write: Cell<bool>,
     pub cluster_new: Cell<bool>,
     pub fail_falloc: Cell<bool>,
+    pub fail_read: Cell<bool>,
     pub added_rb: RefCell<Option<RefBlock>>,
     /// a byte of the last written buffer at a nondeterministic index (universally quantified probe)
     pub write_probe: Cell<u8>,
@@ -302,6 +303,7 @@ impl KEnv {
             fail_write: Cell::new(false),
             cluster_new: Cell::new(false),
             fail_falloc: Cell::new(false),
+            fail_read: Cell::new(false),
             added_rb: RefCell::new(None),
             write_probe: Cell::new(0),
             write_probe_idx: Cell::new(0),
@@ -480,6 +482,9 @@ impl KEnv {
     }
     pub fn k_call_read_q<B: KLen + ?Sized>(&self, off: u64, buf: &mut B) -> Qcow2Result<usize> {
         self.rec(Rec { kind: K_BACKEND_READ, off, len: buf.klen(), ..NOREC });
+        if self.fail_read.get() {
+            return Err(crate::error::Qcow2Error::from_desc(String::new()));
+        }
         Ok(buf.klen())
     }
     /// source cluster content for the copy-on-write shims (decompressed data / backing data)
